@@ -15,7 +15,7 @@ EXPLANATION = (
     "(d) a template triple is emitted only under `is not None` of all three components; (e) evalUpdate runs operations in "
     "request order and has an arm for every update node; (f) the source==target short-circuit dominates the destructive "
     "steps of ADD/MOVE/COPY and MOVE/COPY clear, copy, drop in that order; (g) quads blocks naming the same graph accumulate. "
-    "Graph targeting (WITH/USING/GRAPH, union default) is semantic and not decided."
+    "(i) writes outside GRAPH target the real default graph; (j) path-sensitive reaching definitions of the query context in evalModify decide which graph is active for WHERE and for the templates under each USING/WITH presence combination. GRAPH-template targeting per solution is semantic and not decided."
 )
 
 LAZY_FUNCS = {"evalPart", "evalBGP", "_join", "_minus", "_fillTemplate", "evalLazyJoin", "evalJoin"}
@@ -404,6 +404,7 @@ def run(repo: Repo, rep: Report) -> None:
 
     translation_cache_rule(repo, rep, "C10.h-update-translation-not-cached", ("translateUpdate",))
     real_default_graph_rule(repo, rep)
+    active_graph_rule(repo, rep)
 
 
 def real_default_graph_rule(repo: Repo, rep: Report) -> None:
@@ -455,3 +456,112 @@ def real_default_graph_rule(repo: Repo, rep: Report) -> None:
                    "the write (or the graph handed out for writing) is `ctx.graph` itself: on a Dataset/ConjunctiveGraph with the union switch on this is the union view - the operation hits every graph (or fails) instead of the default graph", node=n)
     if not selectors:
         rep.ob("C10.i-writes-target-real-default-graph", up, "<module>", "a default-graph selector exists", False, "no function maps a dataset-typed ctx.graph to its default_context", node=up.tree)
+
+
+def active_graph_rule(repo: Repo, rep: Report) -> None:
+    """(j) WITH / USING select the active graph of WHERE and of the templates (path-sensitive reaching definitions of `ctx`)"""
+    from vlib.cfg import reaching_defs
+
+    up = repo.mod("rdflib.plugins.sparql.update")
+    em = up.func("evalModify")
+    if em is None:
+        raise AnalysisError("evalModify vanished")
+    rep.rule("C10.j-with-using-select-active-graph",
+             "in evalModify, for each of the four presence combinations of USING and WITH, the query context that is current (last binding of `ctx` on "
+             "every feasible path; branch feasibility from the fixed truth of u.using/u.withClause and the exactly tracked one-bit local flags) is: at the "
+             "WHERE evaluation - the WITH graph pushed iff WITH and no USING, never the WITH graph when USING is present, the caller's context otherwise "
+             "(or the USING scratch default graph); at every statement that selects the graph the templates are applied to - the WITH graph pushed iff WITH "
+             "is present, and otherwise the caller's own context (never the USING scratch dataset)", floor=8)
+    g = CFG(em)
+    ctxname = em.args.args[0].arg
+    uname = em.args.args[1].arg
+    # the atoms must be invariant: u and its attributes are never re-bound in the function
+    for n in own_nodes(em):
+        if isinstance(n, ast.Name) and n.id == uname and isinstance(n.ctx, ast.Store):
+            raise AnalysisError("evalModify re-binds its update node parameter")
+        if isinstance(n, ast.Attribute) and isinstance(n.ctx, ast.Store) and norm(n.value) == uname:
+            raise AnalysisError("evalModify assigns an attribute of its update node")
+    A_USING, A_WITH = "%s.using" % uname, "%s.withClause" % uname
+
+    def classify(nid: int, assume: dict, depth: int = 0) -> str:
+        """class of one binding of ctx"""
+        if nid == g.entry:
+            return "CALLER"
+        st = g.nodes[nid].ast
+        if not isinstance(st, ast.Assign):
+            return "OTHER(%s)" % norm(st)[:40]
+        v = st.value
+        if isinstance(v, ast.Name) and depth < 3:
+            # ctx = originalctx: class of the value that name holds
+            cls = set()
+            for d in reaching_defs(g, nid, v.id, assume):
+                ds = g.nodes[d].ast
+                if d != g.entry and isinstance(ds, ast.Assign) and isinstance(ds.value, ast.Name) and ds.value.id == ctxname:
+                    cls |= {classify(x, assume, depth + 1) for x in reaching_defs(g, d, ctxname, assume)}
+                else:
+                    cls.add("OTHER(%s)" % (norm(ds)[:40] if ds is not None else "entry"))
+            return cls.pop() if len(cls) == 1 else "MIXED(%s)" % ",".join(sorted(cls))
+        if isinstance(v, ast.Call) and isinstance(v.func, ast.Attribute) and v.func.attr == "pushGraph" and norm(v.func.value) == ctxname and v.args:
+            a = v.args[0]
+            srcs = set()
+            if isinstance(a, ast.Name):
+                for d in reaching_defs(g, nid, a.id, assume):
+                    ds = g.nodes[d].ast
+                    val = getattr(ds, "value", None)
+                    if isinstance(ds, (ast.Assign, ast.AnnAssign)) and val is not None:
+                        srcs.add(norm(val))
+                    else:
+                        srcs.add("?" + (norm(ds)[:30] if ds is not None else "entry"))
+            else:
+                srcs.add(norm(a))
+            if srcs and all("get_context(%s)" % A_WITH in s for s in srcs):
+                return "WITH"
+            if srcs and all(s in ("Graph()",) for s in srcs):
+                return "SCRATCH"
+            return "PUSH(%s)" % ",".join(sorted(srcs))[:60]
+        return "OTHER(%s)" % norm(st)[:40]
+
+    # sites
+    where_sites = [n for n in own_nodes(em) if isinstance(n, ast.Call) and norm(n.func) == "evalPart" and len(n.args) == 2 and norm(n.args[1]) == "%s.where" % uname]
+    if len(where_sites) != 1:
+        raise AnalysisError("evalModify: expected exactly one evalPart(ctx, u.where) call, found %d" % len(where_sites))
+    tmpl_sites = []  # statements that read ctx to pick the graph a template is applied to
+    for n in own_nodes(em):
+        if isinstance(n, ast.AugAssign) and any(isinstance(c, ast.Call) and norm(c.func) == "_fillTemplate" for c in ast.walk(n.value)):
+            t = n.target
+            if isinstance(t, ast.Name):
+                for d in reaching_defs(g, g.node_of(n, up), t.id, {}):
+                    ds = g.nodes[d].ast
+                    # only the ACTIVE graph (ctx.graph) depends on which context is current; ctx.dataset is shared by all pushed contexts
+                    if ds is not None and any(isinstance(x, ast.Attribute) and x.attr == "graph" and norm(x.value) == ctxname for x in ast.walk(ds)) and ds not in tmpl_sites:
+                        tmpl_sites.append(ds)
+            elif any(isinstance(x, ast.Attribute) and x.attr == "graph" and norm(x.value) == ctxname for x in ast.walk(t)):
+                if n not in tmpl_sites:
+                    tmpl_sites.append(n)
+    if len(tmpl_sites) < 1:
+        raise AnalysisError("evalModify: found no statement selecting the template target from ctx.graph")
+    rep.info["C10.j_sites"] = {"where": norm(where_sites[0]), "template_targets": [norm(s)[:90] for s in tmpl_sites]}
+    for using in (False, True):
+        for withc in (False, True):
+            assume = {A_USING: using, A_WITH: withc}
+            tag = "USING %s, WITH %s" % ("present" if using else "absent", "present" if withc else "absent")
+            wn = g.node_of(where_sites[0], up)
+            cls = sorted({classify(d, assume) for d in reaching_defs(g, wn, ctxname, assume)})
+            if using:
+                allowed = {"CALLER", "SCRATCH"}
+            elif withc:
+                allowed = {"WITH"}
+            else:
+                allowed = {"CALLER"}
+            ok = bool(cls) and set(cls) <= allowed
+            rep.ob("C10.j-with-using-select-active-graph", up, "evalModify", "[%s] WHERE evaluated in %s" % (tag, "/".join(cls) or "unreachable"), ok,
+                   "as the Update semantics prescribe" if ok else "the context WHERE is evaluated in can be %s; allowed here: %s" % ("/".join(cls), "/".join(sorted(allowed))), node=where_sites[0])
+            for s in tmpl_sites:
+                sn = g.node_of(s, up)
+                cls = sorted({classify(d, assume) for d in reaching_defs(g, sn, ctxname, assume)})
+                allowed = {"WITH"} if withc else {"CALLER"}
+                ok = bool(cls) and set(cls) <= allowed
+                rep.ob("C10.j-with-using-select-active-graph", up, "evalModify", "[%s] template target `%s` chosen in %s" % (tag, norm(s)[:50], "/".join(cls) or "unreachable"), ok,
+                       "as the Update semantics prescribe" if ok else
+                       "with %s the graph the DELETE/INSERT templates outside GRAPH are applied to is selected from the %s context; it must be %s" % (
+                           tag, "/".join(cls), "the WITH graph" if withc else "the caller's dataset (real default graph)"), node=s)
